@@ -282,12 +282,14 @@ fn wide_xor(vars: &[NamedSymbol]) -> Rc<BDD<NamedSymbol>> {
 pub fn wide_family(ctx: &mut Ctx, tag: &str) {
     use crate::refl::Bin;
     let mut idx = 0u64;
-    for n in [33usize, 40, 65, 70] {
+    for n in [33usize, 40, 65, 70, 130, 300] {
         let names: Vec<String> = (0..n).map(|i| format!("v{i}")).collect();
         let syms: Vec<NamedSymbol> = names.iter().enumerate().map(|(i, s)| sym(s, i)).collect();
         let positions: Vec<Vec<usize>> = vec![vec![], vec![0], vec![31], vec![32], vec![33.min(n - 1)], vec![n - 1], vec![31, 32], vec![0, 32], vec![n - 1, 0], vec![32, 0, 31]]
             .into_iter()
             .chain(if n > 64 { vec![vec![63], vec![64], vec![0, 64], vec![32, 64], vec![64, 32, 0]] } else { vec![] })
+            .chain(if n > 128 { vec![vec![127], vec![128], vec![129], vec![0, 128, 64]] } else { vec![] })
+            .chain(if n > 256 { vec![vec![255], vec![256], vec![257], vec![280], vec![256, 0, 299], vec![299, 280, 255]] } else { vec![] })
             .collect();
         // (and / or only: the engine has no operation cache, so negation or quantification of a
         // wide parity diagram is exponential by design)
